@@ -874,6 +874,21 @@ func genC17(w *bufio.Writer, r *rng, thorough bool) {
 		emit(w, "pt.fromx %s 1", be32(v))
 		emit(w, "pt.fromx %s 0", be32(v))
 	}
+	// histories: a point recovery (which negates / rescales the root it obtained in place) followed by a square
+	// root in the same process — the result of the second call must not depend on the first (no shared
+	// "constant" handed out by pointer)
+	{
+		specials := []*big.Int{big.NewInt(0), big.NewInt(1), sub(pMod, 1), big.NewInt(4), sub(pMod, 4), mulm(big.NewInt(7), big.NewInt(7))}
+		for _, x := range []*big.Int{big.NewInt(0), big.NewInt(1), sub(pMod, 1), new(big.Int).Mod(r.big256(), pMod), new(big.Int).Mod(r.big256(), pMod)} {
+			for _, b := range []int{1, 0} {
+				for _, v := range specials {
+					emit(w, "fp.hist %s %d %s", be32(x), b, be32(v))
+				}
+				// the value just produced, and its negation, as the next input
+				emit(w, "fp.hist %s %d %s", be32(x), b, be32(mulm(x, x)))
+			}
+		}
+	}
 	// sign selection on roots close to the middle of the field: y = (p-1)/2 + k and (p+1)/2 - k share their
 	// upper 192 / 128 / 64 bits with p - y, so the choice between y and -y is decided by the low limbs only.
 	// x is recovered from y through the curve equation x^2 = (1 - y^2) / (a - d y^2).
@@ -2224,6 +2239,18 @@ func genMixed(w *bufio.Writer, r *rng, thorough bool, concurrent bool) {
 		// openings at points inside the domain, side by side (the unit vector b = e_z of each is its own)
 		for i := 0; i < 32; i++ {
 			emit(w, "ipa %s %s %s", labelHex("c"), polyDesc(r), be32(big.NewInt(int64((i*37+r.intn(7))%256))))
+		}
+		// the reducing decoders on exactly the modulus (and its multiples) in between ordinary decodings: the
+		// pooled temporaries of the decoders must come back to the pool exactly once on every path
+		for i := 0; i < 40; i++ {
+			k := []int64{1, 1, 2, 3}[i%4]
+			m := new(big.Int).Mul(rMod, big.NewInt(k))
+			emit(w, "fr.dec be %s", be32(m))
+			emit(w, "fr.dec le %s", hx(be32rev(mustUnhex(be32(m)))))
+			for j := 0; j < 6; j++ {
+				emit(w, "fr.dec %s %s", r.pick([]string{"be", "le"}), hx(r.bytes(32)))
+			}
+			emit(w, "tr %s %s", hexOrDash(r.bytes(3)), genTrHistory(r, pool, 6))
 		}
 		// a burst of proofs with many openings spread over several evaluation points, issued back to back so
 		// that their aggregation phases overlap (per-call scratch tables must not be shared between calls)
